@@ -67,6 +67,14 @@ def run(ctx, log):
     # the same small programs at every size around the widths the implementation encodes things in (closed-form results)
     progcheck.run_scale(ctx, log, ['constants', 'locals', 'args', 'statements', 'nesting', 'rtnest', 'objects', 'cyclic', 'alias', 'literal', 'temporaries', 'arity', 'names', 'text', 'csc'])
     progcheck.run_code_boundary(ctx, log)
+    # misplaced stop / volgende under every nesting: rejected before anything runs, or run to a value - never a crash
+    sj = progcheck.stray_jump_family(ctx.quick, ctx.rng)
+    for prof in ("release", "debug"):
+        for x, o in zip(sj, vlib.nlh("eval", ["20000 " + vlib.hexs(x) for x in sj], tag="c05sj", profile=prof, timeout=600)):
+            ctx.seen(("stray-jump", x, prof))
+            ctx.count("stray-jump")
+            if not (o.startswith("OK") or o.startswith("ERR") or o.startswith("BUDGET")):
+                ctx.violate("a misplaced stop / volgende crashed the interpreter (%s build)" % prof, source=x, observed=o[:300])
     # every special value (NaN, infinities, signed zero, range ends, empty and nested things, null, functions) through every
     # operator, prefix operator, builtin and index position: a value or an error value, never a crash
     sv = progcheck.special_values_family()
